@@ -108,3 +108,47 @@ func H_C13_queries() {
 	}
 	verif.Reach("end")
 }
+
+var c13TopLevel = []string{"distinct=>arr", "mix=>nest", "distinct=>nest[0]", "arr[(0:1)]", "a{b|string}"}
+
+// H_C13_toplevel: the selector functions (`distinct=>`, `mix=>`), ranges and
+// pipes from two threads at once, through ExecReader and through a query's
+// FROM clause, on separate documents.
+func H_C13_toplevel() {
+	verif.Opt("schedules", 1)
+	verif.Opt("race", 1)
+	verif.Opt("preempt", 1+verif.Tier())
+	s1 := verif.Choose("selector", len(c13TopLevel))
+	s2 := verif.Choose("selector", len(c13TopLevel))
+	via := verif.Choose("via", 2)
+	if s2 > s1 {
+		verif.Assume(false) // the two threads are symmetric
+	}
+	next := float64(0)
+	mk := func() Map {
+		// concrete cells: the subject is the interleaving, not the values
+		next += 1.5
+		x := next
+		r := Map{"b": x}
+		return Map{"a": Map{"b": x}, "arr": []any{r, Map{"b": x}, Map{"b": x + 1}}, "nest": []any{[]any{r, r}, []any{Map{"b": x + 1}}}}
+	}
+	run := func(doc Map, s int) (any, error) {
+		if via == 0 || s == 4 {
+			return ExecReader(doc, c13TopLevel[s])
+		}
+		return runQueryQuiet(doc, "SELECT b FROM `"+c13TopLevel[s]+"`")
+	}
+	d1, d2 := mk(), mk()
+	var r1, r2 any
+	var e1, e2 error
+	var wg sync.WaitGroup
+	wg.Add(2)
+	go func() { defer wg.Done(); r1, e1 = run(d1, s1) }()
+	go func() { defer wg.Done(); r2, e2 = run(d2, s2) }()
+	wg.Wait()
+	solo1, se1 := run(d1, s1)
+	solo2, se2 := run(d2, s2)
+	verif.Assert((e1 == nil) == (se1 == nil) && (e2 == nil) == (se2 == nil), "same-error")
+	verif.Assert(verif.Eq(r1, solo1) && verif.Eq(r2, solo2), "same-result")
+	verif.Reach("end")
+}
